@@ -52,6 +52,16 @@ CASES = [
     ("def f(d, k):\n    try:\n        return d[k]\n    except KeyError:\n        return -1\n", dict(d=[{'a': 1}, {}], k=['a', 'b'])),
     ("def f(d, k):\n    if k in d:\n        return d[k] + 1\n    return 0\n", dict(d=[{'a': 1, 'b': 5}, {}], k=['a', 'c'])),
     ("def f(d, k):\n    d[k] = 7\n    return d[k] + (d['a'] if 'a' in d else 0)\n", dict(d=[{'a': 1}, {}], k=['a', 'b'])),
+    # lists of ints
+    ("def f(x):\n    return x[0] + x[-1]\n", dict(x=[[1], [1, 2, 3], []])),
+    ("def f(x, i):\n    return x[i]\n", dict(x=[[5, 6, 7]], i=[0, 2, -1, 3, -4])),
+    ("def f(x):\n    return len(x) * 2\n", dict(x=[[], [1, 2]])),
+    ("def f(x, i):\n    try:\n        return x[i]\n    except IndexError:\n        return -1\n", dict(x=[[5, 6]], i=[0, 1, 2, -3])),
+    ("def f(a, b):\n    t = (a, b)\n    return t[1] - t[0]\n", dict(a=[1, 4], b=[2])),
+    ("def f(a):\n    if a:\n        r = 'x'\n    else:\n        r = ''\n    return r + 'y'\n", dict(a=[0, 2])),
+    ("def f(a, b):\n    return (a if a else b) == b\n", dict(a=[0, 2, 3], b=[0, 3])),
+    ("def f(s):\n    return 'a' if s else None\n", dict(s=['', 'q'])),
+    ("def f(a, b):\n    if a > b or (a == b and not b):\n        return 1\n    elif a + 1 == b:\n        return 2\n    return 3\n", dict(a=[0, 1, 2], b=[0, 1, 2])),
 ]
 
 
@@ -68,6 +78,10 @@ def mk_heap(st, v):
         arr = z3.K(S, False)
         for x in sorted(v): arr = z3.Store(arr, z3.StringVal(x), True)
         return VSet(st.alloc(kind='set', arr=arr))
+    if isinstance(v, list):
+        seq = z3.Empty(z3.SeqSort(I))
+        for x in v: seq = z3.Concat(seq, z3.Unit(z3.IntVal(x)))
+        return VList(st.alloc(kind='list', seq=seq, esort=I))
     if isinstance(v, dict):
         dom = z3.K(S, False); val = z3.K(S, z3.IntVal(0))
         for k_, x in v.items(): dom = z3.Store(dom, z3.StringVal(k_), True); val = z3.Store(val, z3.StringVal(k_), z3.IntVal(x))
